@@ -1,0 +1,49 @@
+//go:build verif
+
+package replicator
+
+// VerifStats is a read-only view of the replicator's bookkeeping, compiled only with
+// -tags verif. It lets a simulation harness decide "at rest" from state, not from a timeout.
+type VerifStats struct {
+	Queued     int   // items waiting in the process queue
+	Added      int   // task-table entries in state "added"
+	Fetching   int   // task-table entries in state "fetching"
+	Fetched    int   // task-table entries in state "fetched"
+	Buffered   int   // fetched logs not yet handed to the store
+	InProgress int64 // workers holding a slot
+}
+
+// VerifInspector is implemented by the replicator when built with -tags verif.
+type VerifInspector interface {
+	VerifStats() VerifStats
+	VerifStoreID() string
+}
+
+func (r *replicator) VerifStats() VerifStats {
+	r.muProcess.RLock()
+	defer r.muProcess.RUnlock()
+
+	st := VerifStats{Queued: r.queue.Len(), InProgress: r.taskInProgress}
+	for _, s := range r.tasks {
+		switch s {
+		case stateAdded:
+			st.Added++
+		case stateFetching:
+			st.Fetching++
+		case stateFetched:
+			st.Fetched++
+		}
+	}
+
+	r.muBuffer.Lock()
+	st.Buffered = len(r.buffer)
+	r.muBuffer.Unlock()
+
+	return st
+}
+
+func (r *replicator) VerifStoreID() string {
+	return r.store.OpLog().GetID()
+}
+
+var _ VerifInspector = &replicator{}
